@@ -42,6 +42,9 @@ type Op struct {
 	Order    []int   `json:"order,omitempty"`
 	Mask     int     `json:"mask,omitempty"`
 	SubKind  int     `json:"sub_kind,omitempty"`
+	// ReadFault (redeliver): digest reads at the node fail while the request is processed
+	// (applied only when every operation of the request is stale for the node)
+	ReadFault bool `json:"read_fault,omitempty"`
 }
 
 type Script struct {
@@ -112,7 +115,7 @@ func genOps(t *rapid.T, n, keys int, c13 bool) []Op {
 		case x < w[4]:
 			ops = append(ops, Op{Kind: "redeliver", N: node("n"), Idx: rapid.IntRange(0, 40).Draw(t, "idx"), Idx2: rapid.IntRange(0, 40).Draw(t, "idx2"),
 				Mode:  rapid.SampledFrom([]string{"full", "full", "first", "second", "rev", "merge", "twice"}).Draw(t, "mode"),
-				FbReq: rapid.SampledFrom(fbModes).Draw(t, "fb_req")})
+				FbReq: rapid.SampledFrom(fbModes).Draw(t, "fb_req"), ReadFault: rapid.IntRange(0, 4).Draw(t, "read_fault") == 0})
 		case x < w[5]:
 			if norestart {
 				continue
